@@ -172,8 +172,19 @@ def ms8(F, R):
             n += 1
             recv = strip_load(deref_addr(b, b.call_args(t, site)[0]))
             in_table = mentions(recv, lambda x: x[0] == "field" and x[2] == "Sodg::branches") and recv[0] in ("elem", "field", "item", "some")
-            if in_table:
-                R.ok("MS8", b.where(site), "%s: iterator over a member list inside the graph's table" % fn_key(b))
+            root = recv
+            for _ in range(12):
+                if root[0] in ("field", "elem", "item", "some", "deref", "load", "iter", "vfield") and len(root) > 1 and isinstance(root[1], tuple):
+                    root = strip_load(root[1])
+                else:
+                    break
+            if in_table or root[0] in ("param", "upvar"):
+                R.ok("MS8", b.where(site), "%s: iterator over a member list that belongs to the graph / to the caller" % fn_key(b))
+                continue
+            # the iterator itself leaves the function only if the function's result type carries it
+            rty = b.locals[0]["ty"]
+            if not ("microstack" in rty and "Iter" in rty):
+                R.ok("MS8", b.where(site), "%s: iterator over a local stack, consumed within the function" % fn_key(b))
                 continue
             me = lambda x: (x[0] == "call" and x[1] == c.get("path") and len(x) > 3 and x[3] == site[0]) or \
                 (x[0] == "iter" and strip_sites(strip_load(x[1])) == strip_sites(recv))
